@@ -60,7 +60,13 @@ func main() {
 }
 
 func runHistory(run *evid.Run, rng *rand.Rand, h int, immutable, large bool, nOps int, pairs map[string]int) {
-	reg := ocimem.NewWithConfig(&ocimem.Config{ImmutableTags: immutable})
+	cfg := ocimem.Config{ImmutableTags: immutable}
+	reg := ocimem.NewWithConfig(&cfg)
+	if h%2 == 1 {
+		// the caller's Config value is the caller's: it is changed again, for the next registry it builds
+		cfg.ImmutableTags = !immutable
+		ocimem.NewWithConfig(&cfg)
+	}
 	m := model.New(immutable)
 	m.BlobMediaTypes = true // direct in-memory registry: blob descriptors carry the pushed media type
 	var u *model.Universe
